@@ -119,6 +119,11 @@ impl Changeset {
         mark
     }
 
+    /// Height of the undo stack (what `begin` returns as the mark)
+    pub(crate) fn len(&self) -> usize {
+        self.undos.len()
+    }
+
     /// Returns `true` when changes happen between the last call to `begin` and
     /// this `end`.
     pub(crate) fn end(&mut self) -> bool {
